@@ -460,7 +460,7 @@ def shrink(case):
 
 def plan(tier):
   if tier == 'quick':
-    return {'batches': 48, 'timeout': 1500, 'cases': 9, 'wall_budget_s': 240}
+    return {'batches': 48, 'timeout': 1500, 'cases': 9, 'wall_budget_s': 420}
   return {'batches': 640, 'timeout': 1800, 'cases': 24, 'wall_budget_s': 1500}
 
 
